@@ -370,4 +370,52 @@ example : (leaf cls0 (-172800) 17193600 true 0 { req0 with sni := some (List.rep
 example : (leaf cls0 (-172800) 17193600 true 0 { req0 with up := none, sni := some (List.replicate 63 0x61 ++ strBytes ".example") }) = none := by
   decide +kernel
 
+/-! ### witnesses proposed by the round-6 cross-audit (notes/audit6/C16.md) -/
+
+private def up1 : Upstream :=
+  { cn := some (strBytes "Upstream CN with spaces"), sans := [.dns (strBytes "*.example.com"), .dns (strBytes "example.com"), .ip [4, 10, 0, 0, 1]],
+    org := some (strBytes "Org"), crl := some (strBytes "http://crl.example/x.crl") }
+
+/-- W1 (`requested_host_kept_verbatim`, `get_cert_total_ascii`): hypotheses hold with the TRANSCRIBED classifier (slow path never
+    asked) for a mixed-case ASCII SNI below an upstream wildcard; the SNI is kept verbatim, after the upstream names -/
+example :
+    let r : Req := { up := some up1, sni := some (strBytes "WWW.Example.com"), localAddr := strBytes "127.0.0.1", addr := some (strBytes "10.0.0.1") }
+    isAscii (requested r) = true ∧ C22.parseIp (requested r) = none ∧ idnaAsciiOk (requested r) = true
+      ∧ (classifyAscii (requested r)).isSome = true ∧ isAscii (strBytes "10.0.0.1") = true ∧ (classifyAscii (strBytes "10.0.0.1")).isSome = true
+      ∧ (getNames (classifyT (fun _ => none)) r).map (·.sans) =
+          some [.dns (strBytes "Upstream CN with spaces"), .dns (strBytes "*.example.com"), .dns (strBytes "example.com"), .ip [4, 10, 0, 0, 1],
+                .dns (strBytes "WWW.Example.com")]
+      ∧ (getNames (classifyT (fun _ => none)) r).map (·.cn) = some (some (strBytes "Upstream CN with spaces")) := by decide +kernel
+
+/-- W2 (`requested_ip_kept_packed`): no SNI, IPv6 local address: carried as iPAddress with the packed 16 bytes -/
+example :
+    let r : Req := { up := none, sni := some [], localAddr := strBytes "2001:db8::1", addr := none }
+    isAscii (requested r) = true ∧ (C22.parseIp (requested r)).isSome = true
+      ∧ (getNames (classifyT (fun _ => none)) r).map (·.sans) = some [.ip [6, 0x20, 0x01, 0x0d, 0xb8, 0, 0, 0, 0, 0, 0, 0, 0, 0, 0, 0, 1]] := by
+  decide +kernel
+
+/-- W3 (`matches_requested`, `matches_requested_openssl`, `plan_wellformed`): a leaf exists for a wildcard-looking SNI and both the
+    specification and the OpenSSL transcription accept it for that very name -/
+example :
+    let r : Req := { up := some up1, sni := some (strBytes "*.example.com"), localAddr := strBytes "127.0.0.1", addr := none }
+    (leaf classifyAscii Gen.C16.validityOffset Gen.C16.certExpiry true 0 r).isSome = true
+      ∧ classifyAscii (requested r) = some (.dns (strBytes "*.example.com")) ∧ gText (.dns (strBytes "*.example.com")) ≠ []
+      ∧ (leaf classifyAscii Gen.C16.validityOffset Gen.C16.certExpiry true 0 r).map (fun p => osslMatches p.sans (.host (strBytes "*.example.com"))) = some true
+      ∧ (leaf classifyAscii Gen.C16.validityOffset Gen.C16.certExpiry true 0 r).map (fun p => «matches» p.sans (.host (strBytes "*.example.com"))) = some true
+      ∧ (leaf classifyAscii Gen.C16.validityOffset Gen.C16.certExpiry true 0 r).map (·.sanCritical) = some false := by decide +kernel
+
+/-- W4 (`valid_at_issue`, `valid_throughout`): the skew hypothesis at both extremes (UTC+14 / UTC-14) -/
+example :
+    (-Gen.C16.maxZoneSkew ≤ (50400 : Int) ∧ (50400 : Int) ≤ Gen.C16.maxZoneSkew) ∧ (-Gen.C16.maxZoneSkew ≤ (-50400 : Int) ∧ (-50400 : Int) ≤ Gen.C16.maxZoneSkew)
+      ∧ (dummyCert Gen.C16.validityOffset Gen.C16.certExpiry true (1000000 + 50400) ⟨none, [], none, none⟩).notBefore < 1000000
+      ∧ (1000000 : Int) < (dummyCert Gen.C16.validityOffset Gen.C16.certExpiry true (1000000 - 50400) ⟨none, [], none, none⟩).notAfter := by decide
+
+/-- W5 (`get_cert` raises = `none` branch is real): a 64-byte label makes the codec rule fail → no certificate; an over-long CN (64 code
+    points) is dropped from the subject and the SAN extension becomes critical when there is no organization either -/
+example :
+    (getNames classifyAscii { up := none, sni := some (List.replicate 64 0x61), localAddr := strBytes "127.0.0.1", addr := none }) = none
+    ∧ (leaf classifyAscii Gen.C16.validityOffset Gen.C16.certExpiry false 0
+        { up := none, sni := some (List.replicate 63 0x61 ++ strBytes "." ++ List.replicate 10 0x62), localAddr := [], addr := none }).map
+          (fun p => (p.subjectCn, p.sanCritical, p.akiFromSki)) = some (none, true, false) := by decide +kernel
+
 end MitmVerif.Props.C16
